@@ -302,7 +302,11 @@ def build(recipe, env):
     for op in recipe["ops"]:
         op = tuple(op)
         if op[0] == "her":
-            c.herald(op[1], op[2], op[3]); r.herald(op[1], op[2], op[3])
+            if len(op) > 4:                        # mode numbers given as numpy integers
+                c.herald(op[1], np.int64(op[2]), np.int32(op[3]))
+            else:
+                c.herald(op[1], op[2], op[3])
+            r.herald(op[1], op[2], op[3])
         elif op[0] == "her1":                      # single-mode form: output defaults to the input mode
             c.herald(op[1], op[2]); r.herald(op[1], op[2], op[2])
         elif op[0] == "add":
@@ -335,7 +339,7 @@ def emulator_family(env, tier="quick"):
             "h0": [("her", 0, mid, mid)],
             "h1": [("her", 1, mid, mid)],
             "h2": [("her", 2, n - 1, n - 1)],
-            "io": [("her", 1, 0, n - 1)],
+            "io": [("her", 1, 0, n - 1, "np")],
         }
         if n >= 3:
             heralds["two_desc"] = [("her", 1, n - 1, 0), ("her", 0, 0, 1)]
